@@ -383,14 +383,22 @@ func (m *Manager) incAndGetIDSeq() (uint64, error) {
 			return 0, err
 		}
 	}
-	currSeq, err := strconv.ParseUint(seq.Value, 10, 64)
-	if err != nil {
-		return 0, err
-	}
-	next := currSeq + 1
+	for {
+		currSeq, err := strconv.ParseUint(seq.Value, 10, 64)
+		if err != nil {
+			return 0, err
+		}
+		next := currSeq + 1
 
-	_, err = m.store.Set(seq.Key, strconv.FormatUint(next, 10), seq.Ver)
-	return next, err
+		curr, err := m.store.Set(seq.Key, strconv.FormatUint(next, 10), seq.Ver)
+		if errors.Is(err, kv.ErrVersionMismatch) && curr.Key == seq.Key && curr.Ver != seq.Ver {
+			// The sequence was read from a local replica lagging behind (or someone else got ahead), the store
+			// reported the current value - retry with that.
+			seq = curr
+			continue
+		}
+		return next, err
+	}
 }
 
 func (m *Manager) getTables() (map[string]Table, error) {
